@@ -496,6 +496,30 @@ def interpret_inv_pads(src):
     return sorted(table.items())
 
 
+def probe_inv_pads(src):
+    import vlib
+    exe, out = vlib.build_harness("det")
+    if exe is None:
+        raise GenError("det harness does not build against /repo: " + out[-600:])
+    runs = sorted(set(dx.candidate_runs(src)) | {0, 1, 2 ** 32 - 2, 2 ** 32 - 1})
+    rc, out = vlib.sh([exe, "obs"], stdin="".join("invpads %d\n" % r for r in runs).encode(), timeout=900)
+    lines = [l.strip() for l in out.split("\n") if l.strip()]
+    if rc != 0 or len(lines) < len(runs):
+        raise GenError("probing the implementation (`invpads <run>`) failed: %r" % out[:300])
+    oks = sorted({l for l in lines if l.startswith("ok ")})
+    if len(oks) != 1 or any(not (l.startswith("ok ") or l == "err") for l in lines):
+        raise GenError("PwbPadPosition::try_new: the table depends on the run number or panics (%d distinct answers)" % len(oks))
+    if any(l == "err" for l in lines):
+        raise GenError("PwbPadPosition::try_new: errors for some run numbers; the model has one table for all runs")
+    table = {}
+    for item in oks[0][3:].split():
+        a, ch, col, row = (int(x) for x in item.split("."))
+        table[(a, ch)] = (col, row)
+    if len(table) != 288:
+        raise GenError("PwbPadPosition::try_new: %d entries instead of 288" % len(table))
+    return sorted(table.items())
+
+
 def gen_pad_maps():
     src = read("detector/src/padwing/map.rs")
     pw = read("detector/src/padwing.rs")
@@ -529,10 +553,19 @@ def gen_pad_maps():
     found, why = syntactic_dispatches(src, "fn try_new", families, lazy, "padwing/map.rs", after="impl TpcPwbPosition {")
 
     # PwbPadPosition::try_new ignores the run number and uses INV_PADS_0
-    body = norm(fn_body(src, ") -> Result<PwbPadPosition, MapPwbPadPositionError>"))
-    if body != "let position_map = &INV_PADS_0; Ok(*position_map.get(&(after_id, pad_channel_id)).unwrap())":
-        raise GenError("padwing/map.rs: PwbPadPosition::try_new has an unknown shape")
-    tab = interpret_inv_pads(src)
+    inv_note = ""
+    try:
+        body = norm(fn_body(src, ") -> Result<PwbPadPosition, MapPwbPadPositionError>"))
+        if body != "let position_map = &INV_PADS_0; Ok(*position_map.get(&(after_id, pad_channel_id)).unwrap())":
+            raise GenError("padwing/map.rs: PwbPadPosition::try_new has an unknown shape")
+        tab = interpret_inv_pads(src)
+    except (GenError, IndexError, ValueError) as e:
+        # the source of the (chip, channel) -> (column, row) table could not be interpreted: take the table from the
+        # implementation (complete, 4 x 72 entries, and the same for every candidate run number); the differential
+        # (`ppos` cases) keeps comparing every pad position anyway
+        tab = probe_inv_pads(src)
+        inv_note = ("(* INV_PADS table taken from the implementation by probing PwbPadPosition::try_new "
+                    "(the source could not be interpreted: %s) *)\n" % str(e).replace("*)", "* )")[:200])
 
     notes = []
     if not found or not helper_ok:
@@ -546,6 +579,7 @@ def gen_pad_maps():
     t += "(* TpcPwbPosition::try_new: `match run_number`, arms in source order *)\n"
     t += "Definition pwb_arms : list (rpat * option N) :=\n  %s.\n\n" % dx.coq_arms(found["pwb"])
 
+    t += inv_note
     t += "(* INV_PADS_0, interpreted: ((after, pad channel), (column, row)) *)\n"
     t += "Definition inv_pads_0 : list (N * N * (N * N)) :=\n  [" + ";\n   ".join(
         "; ".join("(%d, %d, (%d, %d))" % (a, c, col, row) for (a, c), (col, row) in tab[i:i + 6])
